@@ -241,11 +241,16 @@ OPS = ["W", "O", "T", "R", "C", "X", "E0", "E1", "P0", "P1"]
 
 
 def mode_history(args):
-    hist, pre_exists = args
+    hist, pre_exists = args[:2]
+    loc = args[2] if len(args) > 2 else "subdir"
     import h5py
     from oqupy.process_tensor import FileProcessTensor, SimpleProcessTensor
     work = tempfile.mkdtemp(prefix="c17m_")
     F = os.path.join(work, "f.hdf5")
+    saved_tempdir = tempfile.tempdir
+    if loc == "tempdir":
+        # the named file lies directly in the directory that is the system temp directory for this process
+        tempfile.tempdir = work
     counter = [100]
     live = []
     vio = []
@@ -362,7 +367,10 @@ def mode_history(args):
                     os.remove(l["name"])
             except Exception:  # noqa
                 pass
+        tempfile.tempdir = saved_tempdir
         shutil.rmtree(work, ignore_errors=True)
+    if loc == "tempdir":
+        vio = [(c.replace("mode|", "mode|named-file-in-the-temp-directory|", 1), w) for c, w in vio]
     return {"vio": vio, "nops": nops, "final": (model["tag"] is not None)}
 
 
@@ -388,13 +396,14 @@ def run(tier, seed):
     depth = 3
     hs = [h for L in range(1, depth + 1) for h in itertools.product(OPS, repeat=L)
           if h[0] not in ("C", "X") and sum(o in ("P0", "P1") for o in h) <= 2]
-    jobs = [(h, pe) for h in hs for pe in (False, True)]
+    jobs = [(h, pe, "subdir") for h in hs for pe in (False, True)]
+    jobs += [(h, pe, "tempdir") for h in hs for pe in (False, True) if tier == "thorough" or len(h) <= 2]
     res = pmap(mode_history, jobs, seed=seed)
-    for (h, pe), r in zip(jobs, res):
+    for (h, pe, loc), r in zip(jobs, res):
         evals += 1
-        keys.add(("mode", h, pe))
+        keys.add(("mode", h, pe, loc))
         for cls, what in r["vio"]:
-            rep.add(Violation(cls, what, {"part": "mode", "hist": list(h), "pre_exists": pe}))
+            rep.add(Violation(cls, what, {"part": "mode", "hist": list(h), "pre_exists": pe, "loc": loc}))
     rep.coverage = {
         "evaluations": evals,
         "distinct_nontrivial": len(keys),
@@ -405,7 +414,7 @@ def run(tier, seed):
                 "(hard death), and every file-operation index plus 'before close' in two orderly death modes (unhandled "
                 "exception, sys.exit); each surviving file is imported as 'file' and as 'simple' in a separate process. "
                 "mode machine: all histories up to depth 3 over 10 operations (create write/overwrite/temp, read, close, remove, "
-                "export with overwrite F/T, pt_tempo_compute into the file with overwrite F/T) x {target missing, existing}. distinct = "
+                "export with overwrite F/T, pt_tempo_compute into the file with overwrite F/T) x {target missing, existing}, and up to depth 2 (thorough 3) with the named file lying directly in the process's temp directory. distinct = "
                 "distinct (writer, death mode, crash point) and (history, precondition) tuples",
         "samples": [{"writer": "export", "death": "hard", "prefix": 7}, {"writer": "pttempo", "death": "exception", "after_file_ops": 3},
                     {"mode_history": list(jobs[(seed * 31) % len(jobs)][0]), "pre_exists": jobs[(seed * 31) % len(jobs)][1]}],
@@ -418,7 +427,7 @@ def run(tier, seed):
 
 def replay(rp):
     if rp["part"] == "mode":
-        r = mode_history((tuple(rp["hist"]), rp["pre_exists"]))
+        r = mode_history((tuple(rp["hist"]), rp["pre_exists"], rp.get("loc", "subdir")))
         return {"obs": r["vio"], "violation": r["vio"][0][0] if r["vio"] else None}
     mode = rp["mode"]
     work = tempfile.mkdtemp(prefix="c17r_")
